@@ -17,7 +17,7 @@ def partitions(rng, total, maxw=12):
     ws = []
     left = total
     while left > 0:
-        w = min(left, rng.choice([1, 1, 2, 3, 4, 5, 7, 8, 9, 12, 16, 16] if maxw <= 12 else [1, 1, 2, 3, 4, 5, 7, 8, 9, 12, 16, 24]))
+        w = min(left, rng.choice([1, 1, 2, 3, 4, 5, 7, 8, 9, 12, 16, 24] if maxw <= 12 else [1, 1, 2, 3, 4, 5, 7, 8, 9, 12, 16, 24]))
         ws.append(w); left -= w
     return ws
 
@@ -150,7 +150,10 @@ def run(ctx):
         # probes that exist on the streaming path only (no static size): judged against the specification
         for prog in (A.Bitwise(A.Struct(A.Renamed("r", A.GreedyRange(A.BitsInteger(12))), A.Renamed("n", A.Alias("Nibble")))),
                      A.Bitwise(A.Struct(A.Renamed("a", A.Alias("Nibble")), A.Renamed("o", A.Optional(A.BitsInteger(16))), A.Renamed("b", A.Alias("Nibble")))),
-                     A.Bitwise(A.Struct(A.Renamed("a", A.Alias("Nibble")), A.Renamed("rest", A.GreedyRange(A.Alias("Nibble")))))):
+                     A.Bitwise(A.Struct(A.Renamed("a", A.Alias("Nibble")), A.Renamed("rest", A.GreedyRange(A.Alias("Nibble"))))),
+                     # a greedy byte-level island that starts inside a byte: it takes the whole bytes there are and leaves the closing bits
+                     A.Bitwise(A.Struct(A.Renamed("a", A.Alias("Nibble")), A.Renamed("rest", A.Bytewise(A.GreedyBytes)), A.Renamed("b", A.Alias("Nibble")))),
+                     A.Bitwise(A.Struct(A.Renamed("a", A.BitsInteger(3)), A.Renamed("rest", A.Bytewise(A.GreedyRange(A.Alias("Byte")))), A.Renamed("b", A.BitsInteger(5))))):
             con = campaign.realizable(prog)
             for data in (b"", b"\x12", b"\x12\x34", b"\x12\x34\x56", b"\xff\xff\xff\xff", b"\x00\x00\x00"):
                 camp.parse(prog, con, data, 0, {})
